@@ -452,3 +452,38 @@ def t_load_pairing(world, prefix='C04.i'):
 _t_lp = tasks
 def tasks(tier):
     return _t_lp(tier) + [('load_pairing', t_load_pairing)]
+
+
+# ---------------------------------------------------------------- C04.j: the e-mode entry lookup the valuation relies on (opaque in C04.a): find_with_tag / has_entries over all 10 entries
+def t_emode_lookup(world):
+    obs = []
+    eng = world.engine(primary='typecrate', extra=())
+    f = world.fn(r'(^|::)find_with_tag$', crate='typecrate')
+    cfg = eng.ex.fresh(f.params[0][1], 'cfg'); tag = eng.ex.fresh('u16', 'tag')
+    res = eng.run_fn(f, [cfg, tag])
+    ob = Ob('C04.j.find_with_tag', 'EmodeConfig::find_with_tag(tag): None for the empty tag 0; otherwise the FIRST of the 10 entries whose collateral tag equals `tag`, None if there is none',
+            [f.name], '10 entries unrolled (closure of find() executed from its MIR); all u16 tags'); ob.paths = len(res)
+    ei = STRUCTS['EmodeConfig'].index('entries'); ti = STRUCTS['EmodeEntry'].index('collateral_bank_emode_tag')
+    et = [z3.Int(f'cfg*.{ei}[{k}].{ti}') for k in range(10)]
+    T = tag.e
+    for r in returned(res):
+        if ob.witness(eng, r, []) is False: continue
+        o = r['ret']; d = zint(o.disc)
+        first = [z3.And(T != 0, et[k] == T, z3.And([et[j] != T for j in range(k)])) for k in range(10)]
+        ob.prove(eng, r, [], (d == 1) == z3.Or(first), 'Some iff the tag is non-zero and some entry carries it', role='emode-lookup')
+        if 1 in o.payload and 0 in o.payload[1]:
+            hit = eng.deref_val(o.payload[1][0])
+            nm = getattr(hit, 'name', '') or ''
+            mk = re.search(r'\[(\d+)\]$', nm)
+            if mk:
+                k = int(mk.group(1))
+                ob.prove(eng, r, [d == 1], first[k], f'the entry returned (slot {k}) is the first one carrying the tag', role='emode-lookup-first')
+            else:
+                ob.fail(f'returned entry not identifiable ({nm})')
+    ob.need_witness(); obs.append(ob)
+    return obs
+
+
+_t_el = tasks
+def tasks(tier):
+    return _t_el(tier) + [('emode_lookup', t_emode_lookup)]
